@@ -5,6 +5,7 @@ import (
 	"log"
 	"os"
 	"testing"
+	"time"
 )
 
 func TestMain(m *testing.M) {
@@ -16,6 +17,9 @@ func TestMain(m *testing.M) {
 		childMainC13()
 		os.Exit(0)
 	}
+	// everything whispertool prints or parses is defined in UTC; run with a local zone that is far from
+	// UTC so that an accidental use of local time shows (sound: correct code never consults time.Local)
+	time.Local = time.FixedZone("VERIF", 9*3600+1800)
 	// server handlers and some commands log through the standard logger
 	if os.Getenv("VERIF_KEEP_LOG") == "" {
 		log.SetOutput(io.Discard)
